@@ -100,47 +100,54 @@ def _check(ctx, run, flags=(), label="default"):
                 raise AnalysisBroken("platform slot %s does not hold exactly one analysed function (%s)" % (slot, tg))
             impl[slot] = prog.functions[tg[0]]
             run.analysed(impl[slot])
-        sj = impl[SETJMP]
-        idx = None
-        for p in enumerate_paths(sj):
-            delta = 0
-            seq = []
-            for e in p.trace:
-                if isinstance(e, int):
-                    n = sj.nodes[e]
-                    if n["k"] == "UnaryOperator" and n.get("op") in ("++", "--"):
-                        idx = render(sj, n["c"][0])
-                        delta += 1 if n["op"] == "++" else -1
-                        seq.append(n["op"])
-                    if n["k"] == "CallExpr" and (prog.callee_name(sj, n) in (sj.params[0]["name"],) or render(sj, n).startswith(sj.params[0]["name"] + "(")):
-                        seq.append("call")
-            rv = const_value(sj, sj.node(p.ret.get("value"))) if p.ret is not None else None
-            called = "call" in seq
-            ok = delta == 0 and ((called and seq == ["++", "call", "--"] and rv == 1) or (not called and seq == [] and rv == 0))
-            run.ob("R2", "SetJmp implementation net depth 0 [%s]%s" % (p.describe(sj), sfx), sj.site, ok, witness={"sequence": seq, "returns": rv})
-        sjc = [c for c in sj.calls() if (prog.callee_name(sj, c) or "") in ("setjmp", "_setjmp", "__sigsetjmp", "sigsetjmp")]
-        lj = impl[LONGJMP_SLOT]
-        ljc = [c for c in lj.calls() if (prog.callee_name(lj, c) or "") in ("longjmp", "_longjmp", "siglongjmp")]
-        ok = len(sjc) == 1 and len(ljc) == 1
-        w = None
-        if ok:
-            a, b = render(sj, sj.args(sjc[0])[0]), render(lj, lj.args(ljc[0])[0])
-            w = {"setjmp": a, "longjmp": b}
-            ok = a == b
-        run.ob("R2", "longjmp targets the slot expression setjmp saved%s" % sfx, lj.site, ok, witness=w)
-        for p in enumerate_paths(lj, stop=lambda f, n: n["k"] == "CallExpr" and (prog.callee_name(f, n) or "") in ("longjmp", "_longjmp", "siglongjmp")):
-            seq = []
-            for e in p.trace:
-                if isinstance(e, int):
-                    n = lj.nodes[e]
-                    if n["k"] == "UnaryOperator" and n.get("op") in ("++", "--"):
-                        seq.append(n["op"])
-                    if n["k"] == "CallExpr" and (prog.callee_name(lj, n) or "") in ("longjmp", "_longjmp", "siglongjmp"):
-                        seq.append("longjmp")
-            run.ob("R2", "LongJmp implementation: depth -1 then longjmp, never returns%s" % sfx, lj.site, seq == ["--", "longjmp"] and p.end in ("stop", "noreturn"), witness={"sequence": seq, "end": p.end})
-        rs = impl[RESTORE]
-        ops = [n["op"] for n in rs.walk() if n["k"] == "UnaryOperator" and n.get("op") in ("++", "--")]
-        run.ob("R2", "RestoreJumpBuffer implementation is exactly depth -1%s" % sfx, rs.site, ops == ["--"] and not rs.calls(), witness=ops)
+        sj, lj, rs = impl[SETJMP], impl[LONGJMP_SLOT], impl[RESTORE]
+        SJN = ("setjmp", "_setjmp", "__sigsetjmp", "sigsetjmp")
+        LJN = ("longjmp", "_longjmp", "siglongjmp", "__longjmp_chk")
+        gvars = sorted({n["name"] for g in (sj, lj, rs) for n in g.walk() if n["k"] == "DeclRefExpr" and n.get("global") and n.get("dk") == "Var" and n.get("ct") in ("int", "unsigned int", "unsigned long", "long")})
+        if len(gvars) != 1:
+            raise AnalysisBroken("jump-buffer depth counter not identified (%s)" % gvars)
+        depth = gvars[0]
+        saved = {}
+        for d0 in (0, 3, 9):
+            for first_return in (0, 1):       # setjmp returns 0 when called, non-zero when longjmp lands
+                ev = Evaluator(prog, sj, env={depth: d0, sj.params[0]["name"]: 77, sj.params[1]["name"]: 88})
+                during = []
+                for nm in SJN:
+                    ev.calls[nm] = lambda *a, fr=first_return: fr
+                ev.calls[sj.params[0]["name"]] = lambda *a, ev=ev, during=during: (during.append(ev.env.get(depth)), 0)[1]
+                try:
+                    ev.run_blocks(sj.entry, max_steps=200)
+                    keys = [k for nm, k in getattr(ev, "argkeys", []) if nm in SJN]
+                    got = {"after": ev.env.get(depth), "ret": getattr(ev, "ret", None), "during": during, "slot": keys[0][0] if keys else None}
+                except Unknown as u:
+                    got = {"error": str(u)}
+                if first_return == 0:
+                    want_ok = got.get("after") == d0 and got.get("ret") == 1 and got.get("during") == [d0 + 1]
+                    saved[d0] = got.get("slot")
+                else:
+                    want_ok = got.get("after") == d0 and got.get("ret") == 0 and got.get("during") == []
+                run.ob("R2", "SetJmp implementation at depth %d, setjmp returns %s: body runs one level deeper and the depth is restored" % (d0, "0 (direct)" if first_return == 0 else "non-zero (after longjmp)") + sfx, sj.site, want_ok, witness=got)
+            # LongJmp from depth d0+1 must land on the slot that SetJmp at depth d0 saved
+            ev = Evaluator(prog, lj, env={depth: d0 + 1})
+            landed = []
+            for nm in LJN:
+                ev.calls[nm] = lambda *a, landed=landed: (landed.append(1), 0)[1]
+            try:
+                ev.run_blocks(lj.entry, max_steps=100)
+            except Unknown:
+                pass
+            keys = [k for nm, k in getattr(ev, "argkeys", []) if nm in LJN]
+            got = {"after": ev.env.get(depth), "slot": keys[0][0] if keys else None, "setjmp_slot": saved.get(d0)}
+            ok = got["after"] == d0 and got["slot"] is not None and got["slot"] == saved.get(d0)
+            run.ob("R2", "LongJmp implementation from depth %d lands on the slot saved at depth %d and pops one level" % (d0 + 1, d0) + sfx, lj.site, ok, witness=got)
+            ev = Evaluator(prog, rs, env={depth: d0 + 1})
+            try:
+                ev.run_blocks(rs.entry, max_steps=50)
+            except Unknown:
+                pass
+            run.ob("R2", "RestoreJumpBuffer implementation pops exactly one level (from %d)" % (d0 + 1) + sfx, rs.site, ev.env.get(depth) == d0 and not [t for t in ev.trace], witness={"after": ev.env.get(depth)})
+        for p in enumerate_paths(lj, stop=lambda f, n: n["k"] == "CallExpr" and (prog.callee_name(f, n) or "") in LJN):
+            run.ob("R2", "LongJmp implementation never returns" + sfx, lj.site, p.end in ("stop", "noreturn"), witness=p.end)
         # handlers
         nh = 0
         for f in prog.functions.values():
@@ -165,13 +172,21 @@ def _check(ctx, run, flags=(), label="default"):
                     wit = []
                     for p in sub:
                         seq = []
+                        in_handler = False
                         for e in p.trace:
-                            if isinstance(e, int) and e in inside:
+                            if isinstance(e, int):
+                                in_handler = e in inside
                                 n = f.nodes[e]
-                                if n["k"] == "CallExpr" and prog.callee_name(f, n) == RESTORE:
-                                    seq.append("restore")
-                                if n["k"] == "CXXThrowExpr":
-                                    seq.append("throw")
+                            elif isinstance(e, dict) and "k" in e:
+                                n = e       # spliced from a static helper called at the last own element
+                            else:
+                                continue
+                            if not in_handler:
+                                continue
+                            if n["k"] == "CallExpr" and prog.callee_name(f, n) == RESTORE:
+                                seq.append("restore")
+                            if n["k"] == "CXXThrowExpr":
+                                seq.append("throw")
                         wit.append(seq)
                         if seq.count("restore") != 1 or ("throw" in seq and seq.index("throw") < seq.index("restore")):
                             ok = False
@@ -197,7 +212,7 @@ def _check(ctx, run, flags=(), label="default"):
     run.analysed(af)
     for p in enumerate_paths(af):
         a = [(l, render(af, r)) for l, r, n in assignments(af, p)]
-        cs = [render(af, c) for c in path_calls(prog, af, p) if (prog.callee_name(af, c) or "").endswith("::addFailure")]
+        cs = [rx(af, c) for c in path_calls(prog, af, p) if (prog.callee_name(af, c) or "").endswith("::addFailure")]
         run.ob("R3", "UtestShell::addFailure marks the test failed and records once%s" % sfx, af.site, ("hasFailed_", "true") in a and cs == ["getTestResult()->addFailure(%s)" % af.params[0]["name"]], witness={"assign": a, "calls": cs})
     ra = prog.fn("TestResult::addFailure")
     run.analysed(ra)
@@ -242,26 +257,51 @@ def _check(ctx, run, flags=(), label="default"):
     for t in [n for n in urun.walk() if n["k"] == "CXXTryStmt"]:
         for hid in t.get("handlers", []):
             h = urun.nodes[hid]
-            adds = [c for c in urun.calls(h) if (prog.callee_name(urun, c) or "").endswith("::addFailure")]
+            hb0 = [b for b in urun.blocks.values() if b.get("label") == hid]
+            inside0 = {x["id"] for x in urun.walk(h)}
+            counts = set()
+            for p in (enumerate_paths(urun, start_block=hb0[0]["id"]) if hb0 else []):
+                c_ = 0
+                in_h = False
+                for e in p.trace:
+                    if isinstance(e, int):
+                        in_h = e in inside0
+                        n = urun.nodes[e]
+                    elif isinstance(e, dict) and "k" in e:
+                        n = e
+                    else:
+                        continue
+                    if in_h and n["k"] == "CXXMemberCallExpr" and (prog.callee_name(urun, n) or "") == "UtestShell::addFailure":
+                        c_ += 1
+                counts.add(c_)
+            adds = sorted(counts)
             own = "CppUTestFailedException" in (h.get("caught") or "")
-            ok = len(adds) == (0 if own else 1)
+            ok = adds == ([0] if own else [1])
             tries = [n["id"] for n in urun.walk() if n["k"] == "CXXTryStmt"]
-            run.ob("R3", "Utest::run try #%d catch(%s) adds %s failure%s" % (tries.index(t["id"]) + 1, h.get("caught"), "no" if own else "exactly one", sfx), urun.site, ok, witness=[render(urun, c) for c in adds],
+            run.ob("R3", "Utest::run try #%d catch(%s) adds %s failure%s" % (tries.index(t["id"]) + 1, h.get("caught"), "no" if own else "exactly one", sfx), urun.site, ok, witness={"failures_added_per_path": adds},
                    what="" if ok else ("an already recorded failure would be recorded twice" if own else "an escaped exception would not be recorded exactly once"))
-            if not own and adds:
+            if not own and adds == [1]:
                 # the failure is recorded before the optional rethrow
                 hb = [b for b in urun.blocks.values() if b.get("label") == hid]
                 okb = True
                 for p in enumerate_paths(urun, start_block=hb[0]["id"]):
                     seq = []
                     inside = {x["id"] for x in urun.walk(h)}
+                    in_h = False
                     for e in p.trace:
-                        if isinstance(e, int) and e in inside:
+                        if isinstance(e, int):
+                            in_h = e in inside
                             n = urun.nodes[e]
-                            if n["k"] == "CXXMemberCallExpr" and (prog.callee_name(urun, n) or "").endswith("::addFailure"):
-                                seq.append("add")
-                            if n["k"] == "CXXThrowExpr":
-                                seq.append("throw")
+                        elif isinstance(e, dict) and "k" in e:
+                            n = e
+                        else:
+                            continue
+                        if not in_h:
+                            continue
+                        if n["k"] == "CXXMemberCallExpr" and (prog.callee_name(urun, n) or "") == "UtestShell::addFailure":
+                            seq.append("add")
+                        if n["k"] == "CXXThrowExpr":
+                            seq.append("throw")
                     if seq.count("add") != 1 or ("throw" in seq and seq.index("throw") < seq.index("add")):
                         okb = False
                 run.ob("R3", "Utest::run try #%d catch(%s) records before rethrowing%s" % (tries.index(t["id"]) + 1, h.get("caught"), sfx), urun.site, okb)
@@ -299,34 +339,77 @@ def _check(ctx, run, flags=(), label="default"):
     d_in = [n for n in decl if any(d["name"] == trname for d in n["decls"]) and rt.where_enclosing(n) and rt.where_enclosing(n)[0] in loops]
     run.ob("R4", "each repetition runs the registry once on a TestResult constructed inside the repetition loop%s" % sfx, rt.site, ok and len(d_in) == 1,
            witness={"result": trname, "declared_in_loop": len(d_in)}, what="" if ok and len(d_in) == 1 else "counts of earlier repetitions leak into later summaries")
-    accs = {}
+    # accumulators: identified by what is added to them, not by their names
+    acc_fail, acc_exec, other_writes = None, None, []
     for n in rt.walk():
-        if n["k"] in ("CompoundAssignOperator", "BinaryOperator") and n.get("op") in ("+=", "=", "-=") and n["k"] != "DeclStmt":
-            accs.setdefault(render(rt, rt.node(n["lhs"])), []).append((n["op"], render(rt, rt.node(n["rhs"]))))
-        if n["k"] == "UnaryOperator" and n.get("op") in ("++", "--"):
-            accs.setdefault(render(rt, n["c"][0]), []).append((n["op"], ""))
-    ok = accs.get("failedTestCount") == [("+=", "%s.getFailureCount()" % trname)] and accs.get("failedExecutionCount") == [("++", "")]
-    run.ob("R4", "failure accumulators only grow: += failures of this repetition, ++ per failed repetition%s" % sfx, rt.site, ok, witness={k: v for k, v in accs.items() if k.startswith("failed")})
+        if n["k"] in ("CompoundAssignOperator", "BinaryOperator") and n.get("op") in ("+=", "=") and rt.where_enclosing(n) and rt.where_enclosing(n)[0] in loops:
+            lhs = render(rt, rt.node(n["lhs"]))
+            rhs = rx(rt, rt.node(n["rhs"]))
+            if "%s.getFailureCount()" % trname in rhs and (n["op"] == "+=" or rhs in ("(%s + %s.getFailureCount())" % (lhs, trname), "(%s.getFailureCount() + %s)" % (trname, lhs))):
+                acc_fail = lhs
     for p in enumerate_paths(rt):
-        val = p.val()
-        isfv = val.get("%s.isFailure()" % trname)
-        if isfv is None:
+        if origin_val(rt, p).get("%s.isFailure()" % trname) is True:
+            for n in trace_nodes(rt, p):
+                d = delta_of(rt, n)
+                if d and d[1] == 1 and rt.where_enclosing(n) and rt.where_enclosing(n)[0] in loops and d[0] != acc_fail:
+                    # the loop counter is incremented on every path; the execution counter only on failing ones
+                    acc_exec = d[0] if acc_exec is None or d[0] == acc_exec else acc_exec
+                    cand = d[0]
+    # disambiguate from the loop counter: the execution counter is NOT incremented on passing repetitions
+    cands = {}
+    for p in enumerate_paths(rt):
+        ov = origin_val(rt, p)
+        isf = ov.get("%s.isFailure()" % trname)
+        if isf is None:
             continue
-        inc = [e for e in p.trace if isinstance(e, int) and rt.nodes[e]["k"] == "UnaryOperator" and render(rt, rt.nodes[e]) in ("failedExecutionCount++", "++failedExecutionCount")]
-        run.ob("R4", "failed repetition counted iff isFailure() [%s]%s" % (short(p.describe(rt), 70), sfx), rt.site, len(inc) == (1 if isfv else 0))
-    rets = [n for n in rt.walk() if n["k"] == "ReturnStmt" and "failed" in render(rt, n)]
-    if len(rets) == 1:
-        for a, b in itertools.product((0, 3), (0, 2)):
-            ev = Evaluator(prog, rt, env={"failedTestCount": a, "failedExecutionCount": b})
+        for n in trace_nodes(rt, p):
+            d = delta_of(rt, n)
+            if d and d[1] == 1 and rt.where_enclosing(n) and rt.where_enclosing(n)[0] in loops:
+                cands.setdefault(d[0], set()).add(isf)
+    acc_exec = next((v for v, ss in sorted(cands.items()) if ss == {True} and v != acc_fail), None)
+    run.ob("R4", "failure accumulators: one grows by the repetition's failure count, one by 1 per failed repetition%s" % sfx, rt.site, acc_fail is not None and acc_exec is not None,
+           witness={"failures": acc_fail, "failed_repetitions": acc_exec}, what="" if acc_fail and acc_exec else "the accumulators of the exit value are not fed from getFailureCount() / isFailure()")
+    for acc in (acc_fail, acc_exec):
+        if acc is None:
+            continue
+        bad = []
+        for n in rt.walk():
+            if n["k"] in ("CompoundAssignOperator", "BinaryOperator", "UnaryOperator") and (n.get("op", "").endswith("=") and n.get("op") not in ("==", "!=", "<=", ">=") or n.get("op") in ("++", "--")):
+                tgt = render(rt, rt.node(n["lhs"])) if n.get("lhs") is not None else render(rt, n["c"][0])
+                if tgt != acc:
+                    continue
+                d = delta_of(rt, n)
+                grows = (d is not None and d[1] > 0) or (n["k"] != "UnaryOperator" and "%s.getFailureCount()" % trname in rx(rt, rt.node(n["rhs"])) and (n["op"] == "+=" or acc in rx(rt, rt.node(n["rhs"]))))
+                if not grows:
+                    bad.append(render(rt, n))
+        run.ob("R4", "accumulator %s only grows inside the run%s" % (acc, sfx), rt.site, not bad, witness=bad or "monotone", what="" if not bad else "a later repetition can overwrite an earlier failure")
+    for p in enumerate_paths(rt):
+        ov = origin_val(rt, p)
+        isfv = ov.get("%s.isFailure()" % trname)
+        if isfv is None or acc_exec is None:
+            continue
+        inc = deltas_on_path(rt, p, acc_exec)
+        run.ob("R4", "failed repetition counted iff isFailure() [%s]%s" % (short(p.describe(rt), 70), sfx), rt.site, inc == ([1] if isfv else []), witness=inc)
+    # exit value: fold from the first block after the repetition loop
+    heads = [b_ for b_ in rt.blocks.values() if b_["id"] in loops and b_.get("cond") is not None and len(b_["succ"]) == 2 and any(s_ is not None and s_ not in loops for s_ in b_["succ"])]
+    after = None
+    for h_ in heads:
+        for s_ in h_["succ"]:
+            if s_ is not None and s_ not in loops:
+                after = s_
+    if after is None or acc_fail is None or acc_exec is None:
+        run.ob("R4", "exit value folded from the accumulators%s" % sfx, rt.site, False, what="repetition loop exit or accumulators not identified")
+    else:
+        for a_, b_ in itertools.product((0, 3), (0, 2)):
+            ev = Evaluator(prog, rt, env={acc_fail: a_, acc_exec: b_})
             try:
-                got = ev.ev(rt.node(rets[0]["value"]))
+                ev.run_blocks(after, max_steps=200)
+                got = getattr(ev, "ret", None)
             except Unknown as u:
                 got = "unknown: %s" % u
-            want_zero = (a == 0 and b == 0)
-            run.ob("R4", "exit value for (failed tests=%d, failed repetitions=%d) is %s%s" % (a, b, "zero" if want_zero else "non-zero", sfx), rt.site,
+            want_zero = (a_ == 0 and b_ == 0)
+            run.ob("R4", "exit value for (failed tests=%d, failed repetitions=%d) is %s%s" % (a_, b_, "zero" if want_zero else "non-zero", sfx), rt.site,
                    isinstance(got, int) and ((got == 0) == want_zero), witness={"folded": got})
-    else:
-        run.ob("R4", "single return of the accumulated verdict%s" % sfx, rt.site, False, witness=[render(rt, r) for r in rets])
     pe = prog.fn("TestOutput::printTestsEnded")
     run.analysed(pe)
     LABELS = [("getTestCount", " tests, "), ("getRunCount", " ran, "), ("getCheckCount", " checks, "), ("getIgnoredCount", " ignored, "), ("getFilteredOutCount", " filtered out, ")]
@@ -364,19 +447,32 @@ def _check(ctx, run, flags=(), label="default"):
         for c in path_calls(prog, ro, p):
             nm = (prog.callee_name(ro, c) or "").split("::")[-1]
             if nm in KEY:
-                seq.append(nm if nm not in ("setCurrentTest", "setTestResult") else "%s(%s)" % (nm, render(ro, ro.args(c)[0])))
+                seq.append(nm if nm not in ("setCurrentTest", "setTestResult") else "%s(%s)" % (nm, rx(ro, ro.args(c)[0]).replace("UtestShell::", "")))
         core = [s for s in seq if "(" not in s]
         if p.end == "return":
             ok = core == ["runAllPreTestAction", "createTest", "run", "destroyTest", "runAllPostTestAction"]
-            ctx_ok = [s for s in seq if "(" in s] in (["setTestResult(&result)", "setCurrentTest(this)", "setCurrentTest(savedTest)", "setTestResult(savedResult)"],
-                                                        ["setCurrentTest(this)", "setTestResult(&result)", "setCurrentTest(savedTest)", "setTestResult(savedResult)"],
-                                                        ["setTestResult(&result)", "setCurrentTest(this)", "setTestResult(savedResult)", "setCurrentTest(savedTest)"])
+            cs_ = [s for s in seq if "(" in s]
+            ctx_ok = sorted(cs_[:2]) == ["setCurrentTest(this)", "setTestResult(&%s)" % ro.params[1]["name"]] and sorted(cs_[2:]) == ["setCurrentTest(getCurrent())", "setTestResult(getTestResult())"]
             run.ob("R5", "normal path: pre < create < run < destroy < post, context saved and restored%s" % sfx, ro.site, ok and ctx_ok, witness=seq)
         elif p.end == "throw":
             ok = core[:2] == ["runAllPreTestAction", "createTest"] and core.count("destroyTest") == 1 and "runAllPostTestAction" not in core
             run.ob("R5", "exceptional path [%s]: the test object is destroyed before the exception continues%s" % (short(p.describe(ro), 60), sfx), ro.site, ok, witness=seq)
-    ini = {k: render(ro, v) for k, v in local_inits(ro).items()}
-    run.ob("R5", "the saved context is the current test and result%s" % sfx, ro.site, (ini.get("savedTest") or "").replace("UtestShell::", "") == "getCurrent()" and (ini.get("savedResult") or "").replace("UtestShell::", "") == "getTestResult()", witness=ini)
+    # the restored values were read before the context was switched
+    okc = True
+    for p in enumerate_paths(ro):
+        if p.end != "return":
+            continue
+        order = []
+        for n in trace_nodes(ro, p):
+            if n["k"] in CALL_KINDS:
+                nm = (prog.callee_name(ro, n) or "").split("::")[-1]
+                if nm in ("getCurrent", "getTestResult"):
+                    order.append("read")
+                if nm in ("setCurrentTest", "setTestResult"):
+                    order.append("write")
+        if order[:2] != ["read", "read"] or "read" in order[2:]:
+            okc = False
+    run.ob("R5", "the context that is restored was read before the context was switched%s" % sfx, ro.site, okc)
     plugin_chain_order(prog, run, "R5")
 
     # ---------------- R6 ----------------------------------------------------
